@@ -800,25 +800,25 @@ func enumHostile(yield func(decodeCase) bool) {
 func init() {
 	RegisterRapid("C07_codecs",
 		"rapid: graph = (n, hash-defined edge set of density 0,1/8,1/2,1 from a seed, up to 3 toggled edges biased to vertex n-2, optionally vertex n-1 isolated) with n from 0..12 or the targets {0,1,2,3,4,5,7,8,9,15,16,17,31,32,33,62,63,64,65,100,128(,200,300)}, input held as dense / sparse / views. graph6: Graph6Encode equals the reference encoder byte for byte, only bytes 63..126, Graph6Decode returns the graph with and without '>>graph6<<'. sparse6: the output is decoded by a literal transcription of the format definition that keeps loops and repeats (none allowed, result must be the graph), equals nauty's ntos6 transcription (both padding rules), and Sparse6Decode returns the graph with and without header. Multicode: equals the reference, decodes to the graph. Non-trivial: n >= 2 with an edge.",
-		Budget{Checks: 2500, Shards: 1}, Budget{Checks: 15000, Shards: 8}, genCodecCase, checkCodecCase)
+		Budget{Checks: 2500, Shards: 1}, Budget{Checks: 30000, Shards: 16}, genCodecCase, checkCodecCase)
 	RegisterEnum("C07_all_labelled_small",
 		"enumeration: EVERY labelled graph on n <= 5 (quick; 1+1+2+8+64+1024 = 1100 graphs) / n <= 6 (thorough; +32768) vertices through graph6, sparse6 and Multicode from the dense and sparse representations; same checks as C07_codecs. Complete for that range.",
 		true, Budget{Shards: 1}, Budget{Shards: 8}, func(y func(labelledCase) bool) { enumLabelled(sz(5, 6))(y) }, checkLabelledCodecs)
 	RegisterRapid("C07_sparse6_long_headers",
 		"rapid: SparseGraphs with n in {63,64,4095,4096,4097,258047,258048,262144,300000} (1-, 4- and 8-byte size fields, k crossing powers of two) and <= 12 edges placed at random, among the first vertices, among the last vertices, or between near neighbours: Sparse6Encode equals the reference and Sparse6Decode restores N, M, degrees and neighbour lists. (The 8-byte graph6 size field would need a 33 GB triangle and is not exercised.) Non-trivial: at least one edge.",
-		Budget{Checks: 60, Shards: 1}, Budget{Checks: 300, Shards: 4}, genBigSparseCase, checkBigSparseCase)
+		Budget{Checks: 60, Shards: 1}, Budget{Checks: 600, Shards: 8}, genBigSparseCase, checkBigSparseCase)
 	RegisterRapid("C07_multicode_concat",
 		"rapid: concatenations of 0..6 reference Multicode records of graphs on 0..6 vertices (records for n = 0 and n = 1 included): MulticodeDecodeMultiple returns exactly the graphs, in order. Non-trivial: >= 2 records.",
-		Budget{Checks: 3000, Shards: 1}, Budget{Checks: 20000, Shards: 2}, genMultiCase, checkMultiCase)
+		Budget{Checks: 3000, Shards: 1}, Budget{Checks: 200000, Shards: 4}, genMultiCase, checkMultiCase)
 	RegisterRapid("C07_prufer",
 		"rapid: codes in {0..n-1}^(n-2) for n in 2..12 (thorough 40), star-like and random: PruferDecode equals the reference tree, PruferEncode inverts it on every representation; the tree relabelled by a random permutation is encoded (equals the reference code, length n-2) and decoded back to itself. Non-trivial: n >= 4.",
-		Budget{Checks: 2000, Shards: 1}, Budget{Checks: 15000, Shards: 4}, genPruferCase, checkPruferCase)
+		Budget{Checks: 2000, Shards: 1}, Budget{Checks: 100000, Shards: 8}, genPruferCase, checkPruferCase)
 	RegisterEnum("C07_prufer_all_codes",
 		"enumeration: EVERY Pruefer code for n = 2..6 (quick; 1+3+16+125+1296) / 2..7 (thorough; +16807): decode/encode are mutually inverse and agree with the reference, so the map is a bijection onto the n^(n-2) labelled trees. Complete for that range.",
 		true, Budget{Shards: 1}, Budget{Shards: 4}, enumPruferCodes, checkPruferCase)
 	subDecode = RegisterRapid("C08_decoders_total",
 		"rapid: byte strings for Graph6Decode / Sparse6Decode from (a) a dictionary of hostile constants, (b) strings over {~ ? @ : A _ ^ o w { } B N}, (c) valid encodings of random graphs (n up to 70, either format, optional header of either format) under 0..4 edits: truncate, delete, insert, replace by any byte, duplicate a chunk, overwrite the size field, append. Strings declaring n > 4096 are discarded and counted. Verdict: returns within 20 s without panicking; error or graph; an unreadable size field must give an error (except the documented empty graph6 string); on success N() = declared n, the graph is well formed, and re-encoding + decoding gives the same graph. Non-trivial: length >= 2 and not the canonical encoding of the returned graph.",
-		Budget{Checks: 8000, Shards: 1}, Budget{Checks: 60000, Shards: 8}, genDecodeCase, checkDecodeCase)
+		Budget{Checks: 8000, Shards: 1}, Budget{Checks: 400000, Shards: 16}, genDecodeCase, checkDecodeCase)
 	RegisterEnum("C08_hostile_strings",
 		"enumeration: the hostile dictionary plus EVERY string of length <= 3 over {~ ? @ A B ^ : 0x3e 0x7f}, each also prefixed with ':', through both decoders; same verdict as C08_decoders_total.",
 		true, Budget{Shards: 1}, Budget{Shards: 1}, enumHostile, checkDecodeCase)
